@@ -14,21 +14,15 @@
    This file: definitions only (no proofs).  Also the executable thread-local successor
    functions used by the extracted acceptor, and the C13 write-abort monitor. *)
 From Coq Require Import ZArith Bool List Arith String.
-From Ice Require Import Model.PrioSpec.
+From Ice Require Import Model.PrioSpec Gen.Consts.
 Import ListNotations.
 
 (* ---- the word -------------------------------------------------------------------------
    udp_mux.go declares   udpMuxWriteBlockedBit  = uint64(1) << 63
                          udpMuxWriteDeadlineBit = uint64(1) << 62
                          udpMuxWriteCountMask   = udpMuxWriteDeadlineBit - 1
-   (typed constants; Gen/Consts.v currently only has udpMuxWriteCountMask, the other two names
-   in the translator's list do not exist in the source).  Defined here until they are generated;
-   Proofs/WriteAbortProofs.v checks CountMask against Gen.Consts and relates the record below to
-   the uint64 encoding. *)
-Definition udpMuxWriteBlockedBit : Z := 2 ^ 63.
-Definition udpMuxWriteDeadlineBit : Z := 2 ^ 62.
-Definition udpMuxWriteCountMask_local : Z := 2 ^ 62 - 1.
-
+   The three constants are GENERATED (Gen/Consts.v).  The model works on the decoded record;
+   Proofs/WriteAbortProofs.v (encode_fields, encode_ops) relates it to the uint64 and its masks. *)
 Record word := { cnt : nat; blk : bool; dl : bool }.
 Definition w0 : word := {| cnt := 0; blk := false; dl := false |}.
 Definition winc (w : word) : word := {| cnt := S (cnt w); blk := blk w; dl := dl w |}.   (* state+1 *)
